@@ -77,6 +77,7 @@ VARIABLES
   justAcked   \* TRUE exactly in the state reached by FlushAck
 vars == <<cur, gens, ng, q, retq, free, wk, dur, pend, jpos, mgen, boot, hist, ack, fl, justAcked>>
 
+NoAck == justAcked' = FALSE      \* conjunct of every action but FlushAck
 NoGen == [k |-> 0, ts |-> 0, exp |-> 0, n |-> 0, live |-> FALSE, sector |-> 0, succ |-> 0,
           ret |-> FALSE, rel |-> FALSE]
 IdleWk == [pc |-> "idle", writes |-> <<>>, chunks |-> <<>>, marks |-> {}, dev |-> FALSE,
@@ -144,11 +145,11 @@ InitDevice ==
   /\ pend' = pend \o <<MW(0, Mt(mgen + 1, FormatVersion, 0, 0)), MW(1, Mt(mgen + 1, FormatVersion, 0, 0))>>
   /\ mgen' = mgen + 1
   /\ boot' = IF InitSync THEN "msync" ELSE "done"
-  /\ UNCHANGED <<cur, gens, ng, q, retq, free, wk, dur, jpos, hist, ack, fl>>
+  /\ UNCHANGED <<cur, gens, ng, q, retq, free, wk, dur, jpos, hist, ack, fl>> /\ NoAck
 InitFsync ==
   /\ boot = "msync"
   /\ dur' = Synced /\ pend' = <<>> /\ boot' = "done"
-  /\ UNCHANGED <<cur, gens, ng, q, retq, free, wk, jpos, mgen, hist, ack, fl>>
+  /\ UNCHANGED <<cur, gens, ng, q, retq, free, wk, jpos, mgen, hist, ack, fl>> /\ NoAck
 
 (* ------------------------------ API ------------------------------ *)
 NewGen(k, n, ts) == [NoGen EXCEPT !.k = k, !.ts = ts, !.n = n, !.live = TRUE]
@@ -164,7 +165,7 @@ Put(k, n, ts) ==
      /\ q' = IF o = 0 THEN Append(q, [op |-> "W", g |-> g])
              ELSE q \o <<[op |-> "W", g |-> g], [op |-> "D", g |-> o]>>      \* add_replacement
      /\ hist' = [hist EXCEPT ![k] = Append(@, g)]
-  /\ UNCHANGED <<retq, free, wk, dur, pend, jpos, mgen, boot, ack, fl>>
+  /\ UNCHANGED <<retq, free, wk, dur, pend, jpos, mgen, boot, ack, fl>> /\ NoAck
 Del(k) ==
   /\ boot = "done" /\ cur[k] # 0
   /\ LET o == cur[k] IN
@@ -172,7 +173,7 @@ Del(k) ==
      /\ cur' = [cur EXCEPT ![k] = 0]
      /\ q' = Append(q, [op |-> "D", g |-> o])
      /\ hist' = [hist EXCEPT ![k] = Append(@, 0)]
-  /\ UNCHANGED <<ng, retq, free, wk, dur, pend, jpos, mgen, boot, ack, fl>>
+  /\ UNCHANGED <<ng, retq, free, wk, dur, pend, jpos, mgen, boot, ack, fl>> /\ NoAck
 
 (* ------------------------------ worker: write batch ------------------------------ *)
 \* Record::successor_is_durable_or_deleted (record.sector is never reset, so the test is monotone)
@@ -203,7 +204,7 @@ WStart ==
                                 !.serving = (fl.pc = "req")]
         /\ q' = <<>>
   /\ fl' = IF fl.pc = "req" THEN [fl EXCEPT !.pc = "wait"] ELSE fl
-  /\ UNCHANGED <<cur, gens, ng, free, dur, pend, jpos, mgen, boot, hist, ack>>
+  /\ UNCHANGED <<cur, gens, ng, free, dur, pend, jpos, mgen, boot, hist, ack>> /\ NoAck
 
 RECURSIVE AllocAll(_, _, _)
 AllocAll(ws, i, fr) ==
@@ -219,7 +220,7 @@ WAlloc ==
      ELSE /\ UNCHANGED free
           /\ q' = [i \in 1 .. Len(wk.writes) |-> [op |-> "W", g |-> wk.writes[i].g]] \o q
           /\ wk' = [wk EXCEPT !.pc = "rclassify", !.writes = <<>>, !.failed = TRUE]
-  /\ UNCHANGED <<cur, gens, ng, retq, dur, pend, jpos, mgen, boot, hist, ack, fl>>
+  /\ UNCHANGED <<cur, gens, ng, retq, dur, pend, jpos, mgen, boot, hist, ack, fl>> /\ NoAck
 
 WExts == [i \in 1 .. Len(wk.writes) |-> <<wk.writes[i].at, wk.writes[i].n>>]
 \* device write lock: taken here, held until publish; the flush caller holds it from the
@@ -229,28 +230,28 @@ WIntent ==
   /\ pend' = Append(pend, JW(TRUE, IF JournalAll THEN WExts ELSE SubSeq(WExts, 1, Len(WExts) - 1)))
   /\ jpos' = NextJ
   /\ wk' = [wk EXCEPT !.pc = IF SyncIntent THEN "fs1" ELSE "data", !.dev = TRUE]
-  /\ UNCHANGED <<cur, gens, ng, q, retq, free, dur, mgen, boot, hist, ack, fl>>
+  /\ UNCHANGED <<cur, gens, ng, q, retq, free, dur, mgen, boot, hist, ack, fl>> /\ NoAck
 WFs(from, to) ==
   /\ wk.pc = from /\ dur' = Synced /\ pend' = <<>> /\ wk' = [wk EXCEPT !.pc = to]
-  /\ UNCHANGED <<cur, gens, ng, q, retq, free, jpos, mgen, boot, hist, ack, fl>>
+  /\ UNCHANGED <<cur, gens, ng, q, retq, free, jpos, mgen, boot, hist, ack, fl>> /\ NoAck
 WData ==
   /\ wk.pc = "data"
   /\ pend' = pend \o [i \in 1 .. Len(wk.writes) |->
                         DW(wk.writes[i].at, RecordImage(wk.writes[i].g, wk.writes[i].n))]
   /\ wk' = [wk EXCEPT !.pc = IF SyncData THEN "fs2" ELSE "clear"]
-  /\ UNCHANGED <<cur, gens, ng, q, retq, free, dur, jpos, mgen, boot, hist, ack, fl>>
+  /\ UNCHANGED <<cur, gens, ng, q, retq, free, dur, jpos, mgen, boot, hist, ack, fl>> /\ NoAck
 WClear(from, to) ==
   /\ wk.pc = from
   /\ pend' = Append(pend, JW(FALSE, <<>>)) /\ jpos' = NextJ
   /\ wk' = [wk EXCEPT !.pc = to]
-  /\ UNCHANGED <<cur, gens, ng, q, retq, free, dur, mgen, boot, hist, ack, fl>>
+  /\ UNCHANGED <<cur, gens, ng, q, retq, free, dur, mgen, boot, hist, ack, fl>> /\ NoAck
 WPublish ==
   /\ wk.pc = "publish"
   /\ gens' = [g \in GenIds |-> IF \E w \in SeqSet(wk.writes) : w.g = g
                                THEN [gens[g] EXCEPT !.sector = (CHOOSE w \in SeqSet(wk.writes) : w.g = g).at]
                                ELSE gens[g]]
   /\ wk' = [wk EXCEPT !.pc = "rclassify", !.writes = <<>>, !.dev = FALSE]
-  /\ UNCHANGED <<cur, ng, q, retq, free, dur, pend, jpos, mgen, boot, hist, ack, fl>>
+  /\ UNCHANGED <<cur, ng, q, retq, free, dur, pend, jpos, mgen, boot, hist, ack, fl>> /\ NoAck
 
 (* ------------------------------ retirement ------------------------------ *)
 \* process_deletions: never-written -> dropped; successor not durable -> waits; the others get the
@@ -274,19 +275,19 @@ RClassify ==
            ELSE IF \E e \in retq : e.marked THEN wk' = [wk EXCEPT !.pc = "release"] /\ UNCHANGED fl
            ELSE /\ wk' = IdleWk
                 /\ fl' = FlAfter(retq \ Dropped, FALSE)
-  /\ UNCHANGED <<cur, ng, q, free, dur, pend, jpos, mgen, boot, hist, ack>>
+  /\ UNCHANGED <<cur, ng, q, free, dur, pend, jpos, mgen, boot, hist, ack>> /\ NoAck
 \* io.rs retire_extents, per chunk (device write lock held over all chunks)
 RIntent ==
   /\ wk.pc = "rintent" /\ (wk.dev \/ fl.pc # "msync")
   /\ pend' = Append(pend, JW(TRUE, wk.chunks[1]))
   /\ jpos' = NextJ
   /\ wk' = [wk EXCEPT !.pc = IF SyncIntent THEN "rfs1" ELSE "rmark", !.dev = TRUE]
-  /\ UNCHANGED <<cur, gens, ng, q, retq, free, dur, mgen, boot, hist, ack, fl>>
+  /\ UNCHANGED <<cur, gens, ng, q, retq, free, dur, mgen, boot, hist, ack, fl>> /\ NoAck
 RMarkers ==
   /\ wk.pc = "rmark"
   /\ pend' = pend \o [i \in 1 .. Len(wk.chunks[1]) |-> DW(wk.chunks[1][i][1], MarkerImage(wk.chunks[1][i][2]))]
   /\ wk' = [wk EXCEPT !.pc = IF SyncMarkers THEN "rfs2" ELSE "rclear"]
-  /\ UNCHANGED <<cur, gens, ng, q, retq, free, dur, jpos, mgen, boot, hist, ack, fl>>
+  /\ UNCHANGED <<cur, gens, ng, q, retq, free, dur, jpos, mgen, boot, hist, ack, fl>> /\ NoAck
 \* next chunk, or all chunks done: DELETE_MARKER_DURABLE on every entry, lock released
 RNext ==
   /\ wk.pc = "rnext"
@@ -294,7 +295,7 @@ RNext ==
      THEN /\ wk' = [wk EXCEPT !.chunks = Tail(@), !.pc = "rintent"] /\ UNCHANGED retq
      ELSE /\ retq' = {IF e.g \in wk.marks THEN [e EXCEPT !.marked = TRUE] ELSE e : e \in retq}
           /\ wk' = [wk EXCEPT !.chunks = <<>>, !.marks = {}, !.pc = "release", !.dev = FALSE]
-  /\ UNCHANGED <<cur, gens, ng, q, free, dur, pend, jpos, mgen, boot, hist, ack, fl>>
+  /\ UNCHANGED <<cur, gens, ng, q, free, dur, pend, jpos, mgen, boot, hist, ack, fl>> /\ NoAck
 RRelease ==
   /\ wk.pc = "release"
   /\ LET rs == {e \in retq : e.marked} IN
@@ -303,14 +304,14 @@ RRelease ==
      /\ gens' = [g \in GenIds |-> IF \E e \in rs : e.g = g THEN [gens[g] EXCEPT !.rel = TRUE] ELSE gens[g]]
      /\ wk' = IdleWk
      /\ fl' = FlAfter(retq \ rs, rs # {})
-  /\ UNCHANGED <<cur, ng, q, dur, pend, jpos, mgen, boot, hist, ack>>
+  /\ UNCHANGED <<cur, ng, q, dur, pend, jpos, mgen, boot, hist, ack>> /\ NoAck
 
 (* ------------------------------ flush ------------------------------ *)
 \* force_flush: every operation completed before the call is covered
 FlushBegin ==
   /\ boot = "done" /\ fl.pc = "idle" /\ fl.n < MaxFlush
   /\ fl' = [pc |-> "req", tgt |-> [k \in Keys |-> Len(hist[k])], n |-> fl.n + 1]
-  /\ UNCHANGED <<cur, gens, ng, q, retq, free, wk, dur, pend, jpos, mgen, boot, hist, ack>>
+  /\ UNCHANGED <<cur, gens, ng, q, retq, free, wk, dur, pend, jpos, mgen, boot, hist, ack>> /\ NoAck
 \* flush_all -> write_store_metadata: the copy chosen by the parity of the next generation
 FlushMeta ==
   /\ fl.pc = "meta" /\ ~wk.dev
@@ -318,7 +319,7 @@ FlushMeta ==
      pend' = Append(pend, MW(IF next % 2 = 0 THEN 0 ELSE 1,
                              Mt(next, FormatVersion, Cardinality({k \in Keys : cur[k] # 0}), 0)))
   /\ fl' = [fl EXCEPT !.pc = "msync"]
-  /\ UNCHANGED <<cur, gens, ng, q, retq, free, wk, dur, jpos, mgen, boot, hist, ack>>
+  /\ UNCHANGED <<cur, gens, ng, q, retq, free, wk, dur, jpos, mgen, boot, hist, ack>> /\ NoAck
 \* its fsync, then flush_all returns Ok: history below the acknowledged index is dropped
 FlushAck ==
   /\ fl.pc = "msync"
@@ -327,8 +328,9 @@ FlushAck ==
   /\ ack' = [k \in Keys |-> 1]
   /\ fl' = [fl EXCEPT !.pc = "idle", !.tgt = [k \in Keys |-> 1]]
   /\ UNCHANGED <<cur, gens, ng, q, retq, free, wk, jpos, boot>>
+  /\ justAcked' = TRUE
 
-Step ==
+Next ==
   \/ InitDevice \/ InitFsync
   \/ \E k \in Keys, n \in Sizes, ts \in 1 .. MaxTs : Put(k, n, ts)
   \/ \E k \in Keys : Del(k)
@@ -336,8 +338,7 @@ Step ==
   \/ WClear("clear", IF SyncClear THEN "fs3" ELSE "publish") \/ WFs("fs3", "publish") \/ WPublish
   \/ RClassify \/ RIntent \/ WFs("rfs1", "rmark") \/ RMarkers \/ WFs("rfs2", "rclear")
   \/ WClear("rclear", IF SyncClear THEN "rfs3" ELSE "rnext") \/ WFs("rfs3", "rnext") \/ RNext \/ RRelease
-  \/ FlushBegin \/ FlushMeta
-Next == (Step /\ justAcked' = FALSE) \/ (FlushAck /\ justAcked' = TRUE)
+  \/ FlushBegin \/ FlushMeta \/ FlushAck
 Spec == Init /\ [][Next]_vars
 
 (* ------------------------------ properties ------------------------------ *)
